@@ -5,6 +5,7 @@ import (
 	"fmt"
 	"math"
 	"math/rand"
+	"regexp"
 	"strconv"
 	"strings"
 
@@ -19,6 +20,8 @@ import (
 func init() {
 	streams["ops"] = streamOps
 }
+
+var decDigitsRe = regexp.MustCompile(`^[0-9]+$`)
 
 var arithOps = []string{"+", "-", "*", "/", "%", "|", "&", "<<", ">>", "<", "<=", ">", ">="}
 var eqOps = []string{"==", "!="}
@@ -252,6 +255,53 @@ func streamOps(o *Out, r *rand.Rand, n int, thorough bool) {
 				if af, ok := a.(float64); ok && op == "-" && !out.panicked && out.err == nil {
 					if !sameValue(-af, out.val) {
 						o.Fail(Failure{Oracle: "go-arithmetic", Key: "unary:" + op, Input: fmt.Sprintf("%s%v (mode %d)", op, a, m), Detail: fmt.Sprintf("Go computes %v; interpreter gave %v (%T)", -af, out.val, out.val)})
+					}
+				}
+			}
+		}
+	}
+	// 1a'. string operands: + with a string operand concatenates (the other operand as decimal text), also with the empty
+	// string; a string of decimal digits - leading zeros included - counts as that decimal number for - * % | & << >>
+	for _, str := range vals.Strs {
+		for _, i := range []int64{0, 1, 5, -3, 4096, 10} {
+			for order := 0; order < 2; order++ {
+				var a, b interface{} = str, i
+				if order == 1 {
+					a, b = i, str
+				}
+				t := &tnode{op: "+", l: &tnode{val: a}, r: &tnode{val: b}}
+				out := emit(t, "string-operand")
+				want := fmt.Sprint(a) + fmt.Sprint(b)
+				if !out.panicked && (out.err != nil || !sameValue(want, out.val)) {
+					o.Fail(Failure{Oracle: "string-concatenation", Key: "concat:+", Input: fmt.Sprintf("%#v + %#v", a, b),
+						Detail: fmt.Sprintf("expected the string %q, got %#v (err %v)", want, out.val, out.err)})
+				}
+			}
+			if !decDigitsRe.MatchString(str) {
+				continue
+			}
+			n, perr := strconv.ParseInt(str, 10, 64)
+			if perr != nil {
+				continue
+			}
+			for _, op := range []string{"-", "*", "%", "|", "&", "<<", ">>"} {
+				for order := 0; order < 2; order++ {
+					var a, b interface{} = str, i
+					x, y := n, i
+					if order == 1 {
+						a, b = i, str
+						x, y = i, n
+					}
+					if op == "*" && order == 0 {
+						continue // string * int repeats the string
+					}
+					t := &tnode{op: op, l: &tnode{val: a}, r: &tnode{val: b}}
+					out := emit(t, "string-operand")
+					if want, wantErr, ok := nativeBinary(op, x, y); ok && !out.panicked {
+						if wantErr != (out.err != nil) || (!wantErr && !sameValue(want, out.val)) {
+							o.Fail(Failure{Oracle: "go-arithmetic", Key: "digit-string:" + op, Input: fmt.Sprintf("%#v %s %#v", a, op, b),
+								Detail: fmt.Sprintf("the digit string denotes %d, so Go computes %v (error=%v); interpreter gave %v (%T), err=%v", n, want, wantErr, out.val, out.val, out.err)})
+						}
 					}
 				}
 			}
